@@ -173,7 +173,12 @@ def call_specfun(ev, name, node, st):
         finally:
             del values.SCOPE[len(values.SCOPE) - len(vs):]
         from .values import leaf_term
-        if vs:
+        # the same definition (same name, same body over the same terms) reached through another scope - e.g. a callee's contract
+        # instantiated at the caller's arguments - is the same symbol
+        canon = (id(ctx), name, z3.substitute(leaf_term(rs, bv), *[(v, z3.Int("__sfarg%d" % i)) for i, v in enumerate(vs)]).sexpr())
+        if canon in _specfun_cache:
+            _specfun_cache[key] = _specfun_cache[canon]
+        elif vs:
             f = z3.Function(fresh_name("spec_" + name), *([z3.IntSort()] * len(vs) + [leaf_sort(rs)]))
             app = f(*vs)
             values.DEFS.append((f.name(), z3.ForAll(vs, app == leaf_term(rs, bv), patterns=[app])))
@@ -181,7 +186,8 @@ def call_specfun(ev, name, node, st):
             c0 = z3.Const(fresh_name("spec_" + name), leaf_sort(rs))
             f = lambda c0=c0: c0
             values.DEFS.append((c0.decl().name(), c0 == leaf_term(rs, bv)))
-        _specfun_cache[key] = f
+        if canon not in _specfun_cache:
+            _specfun_cache[key] = _specfun_cache[canon] = f
     f = _specfun_cache[key]
     args = [as_num(ev.ev(a, st)).t for a in node.args]
     from .values import leaf_val
@@ -1002,12 +1008,14 @@ def mask_select(ev, base, mask, st, node):
         facts.append(z3.ForAll([a_, b_], z3.Implies(z3.And(0 <= a_, a_ < b_, b_ < R.n), J[a_] < J[b_])))
         facts.append(z3.ForAll([p_], z3.Implies(z3.And(p_ >= 0, p_ < base.n, mask.at(p_).t), z3.And(PM[p_] >= 0, PM[p_] < R.n, J[PM[p_]] == p_))))
         Jseq = Seq(R.n, z3.IntVal(0), [J], INT, "array")
+        Jseq.pos = Seq(base.n, z3.IntVal(0), [PM], INT, "array")
         _mask_memo[key] = (R, Jseq, facts)
     for f in facts:
         if not any(f.eq(h) for h in st.pc[-40:]):
             st.pc.append(f)
     if not ev.spec:
         st.env["_last_mask_index"] = Jseq
+        st.env["_last_mask_pos"] = Jseq.pos
     return R
 
 
